@@ -191,15 +191,24 @@ P = {
        "value position, response-file lines with newlines/CR/over 64 KiB.",
   ref="DESIGN.md section 5 C10"),
  "C12": dict(
-  text="24 Lean theorems about the sequential state machine of rotation.Rotator (Write with its retry as a step function, the "
-       "rename chain, Close, re-open with size from Stat, New with options and regenerated defaults): write_terminates (<= 2 "
-       "passes), write_whole, retained_is_suffix over every history, retained_whole until more than MaxBackups+1 files are "
-       "filled, size_bound, backup_count, preexisting_appended, close/reopen laws, serialised_writers. Every Write runs under "
-       "a deadline (a hang is an output, not a hung check); the whole directory is compared after every operation.",
-  note="atomicity of a call under concurrency is assumed from the mutex (sequential model): 'concurrent writers never "
-       "interleave bytes' is evidenced only by the stress oracle incl. a -race build; file-system error paths and WithMask are "
-       "not modelled.",
-  ref="DESIGN.md section 5 C12"),
+  text="35 Lean theorems about the state machine of rotation.Rotator (Write with its retry as a step function, the rename "
+       "chain, Close, re-open with size from Stat, New with options and regenerated defaults, histories in segments each with "
+       "its own limits): write_terminates (<= 2 passes), write_whole, retained_is_suffix over every history, retained_whole "
+       "until more than MaxBackups+1 files are filled, size_bound, backup_count, preexisting_appended, restart theorems "
+       "(size_bound_across_restarts, backup_frame_across_restarts, retained_is_suffix_across_restarts), "
+       "current_file_exists_at_write. CONCURRENCY: a generic mutex machine (Model/Mutex.lean, Lemmas/MutexLin.lean: threads "
+       "running operations bracketed by one mutex, micro-steps on shared state, any scheduler) is proved linearizable, "
+       "mutually exclusive, deadlock-free and schedule-bounded, and instantiated with Write/Sync/Close split into their "
+       "syscall-level micro-steps: concurrent_writes_never_interleave, concurrent_complete, concurrent_bounds, "
+       "concurrent_progress, concurrent_returns_in_bounded_time; contrast: without the bracket concrete schedules tear a "
+       "record (unbracketed_writes_tear) and break the size accounting. Every Write runs under a deadline (a hang is an output, "
+       "not a hung check); the whole directory (position-dependent record bytes) is compared after every operation.",
+  note="the concurrent_* theorems are about a machine bracketed BY CONSTRUCTION: proved for the bracketed model, observed (not "
+       "proved) for the code - that rotator.go really takes the lock around every method is tied only by the stress oracle "
+       "(2-12 writer goroutines with Close and Sync alongside, judged by the theorem's conclusion: whole records, per-goroutine "
+       "order, size bound, directory equal to the sequential rule), with and without -race; file-system error paths and "
+       "WithMask are not modelled.",
+  ref="DESIGN.md section 5 C12, section 0"),
  "C15": dict(
   text="25 Lean theorems over the threaded model of the queue (TQW.TStep: the dispatcher process() as a thread with one "
        "program-counter value per blocking point, the in/tasks/ready channels, the backlog, and `workers` worker threads in the "
